@@ -621,6 +621,13 @@ pub fn linearizable(case: &Case, replay_setup: &dyn Fn() -> World, outcome: &Out
                             legal = false;
                             break;
                         }
+                        // only a command that finds an EXPIRED record may have its collection postponed
+                        let now = w.clock.0.load(std::sync::atomic::Ordering::SeqCst);
+                        let found_expired = crate::sut::Sut::records_of(&w.mem).iter().any(|(k, r)| k.as_slice() == KEY && r.ttl != 0 && r.ts + r.ttl as u64 <= now);
+                        if !found_expired {
+                            legal = false;
+                            break;
+                        }
                         ex.grant(*t);
                         if !(ex.parked_at(*t) == Some("check_if_expired") && ex.completed(*t) == before) {
                             legal = false; // nothing to postpone
@@ -636,6 +643,12 @@ pub fn linearizable(case: &Case, replay_setup: &dyn Fn() -> World, outcome: &Out
                         let _ = ex.parked_at(*t);
                         if ex.completed(*t) == before {
                             legal = false; // the command went on to a store call: not a one-at-a-time execution
+                            break;
+                        }
+                        // its answer was decided when it found the expired record: the key counts as absent
+                        let last = ex.results.lock().unwrap()[*t].last().cloned().unwrap_or_default();
+                        if !(last == "err:1" || last == "silent") {
+                            legal = false;
                             break;
                         }
                         let recs_after = crate::sut::Sut::records_of(&w.mem);
